@@ -152,6 +152,15 @@ def rule_r2(rep, repo):
         pt = next((k.value for k in c.keywords if k.arg == "pt_ind"), None)
         if pt is None:
             raise AnalysisError("unrecognised idiom: chunked call passes no pt_ind")
+        # look through a local name defined once inside the loop (chunk_ind = np.clip(indices - b, 0, None))
+        hops = 0
+        while isinstance(pt, ast.Name) and hops < 4:
+            dfn = [st.value for st in ast.walk(scope) if isinstance(st, ast.Assign) and len(st.targets) == 1
+                   and isinstance(st.targets[0], ast.Name) and st.targets[0].id == pt.id]
+            if len(dfn) != 1:
+                break
+            pt = dfn[0]
+            hops += 1
         txt = norm(pt)
         chunk_arg = c.args[0] if c.args else None
         start = None
